@@ -48,6 +48,8 @@ class Untraceable(Exception):
 
 
 EVENTS = []          # branch events of the current trace: (kind, text, outcome)
+FLOOR_AS_EVENT = False   # math.floor/ceil of a symbolic number: False = opaque call `floor x` (stays symbolic, a float),
+                         # True = branch event, the sample decides and a Python int comes back (as math.floor does)
 
 
 def _ev(kind, text, outcome):
@@ -161,11 +163,15 @@ class Sym(float):
     __trunc__ = __int__
 
     def __floor__(self):
+        if not FLOOR_AS_EVENT:
+            return call('floor', math.floor, self)
         v = math.floor(float.__float__(self))
         _ev('int', f'floor({show(self.node)})', v)
         return v
 
     def __ceil__(self):
+        if not FLOOR_AS_EVENT:
+            return call('ceil', math.ceil, self)
         v = math.ceil(float.__float__(self))
         _ev('int', f'ceil({show(self.node)})', v)
         return v
@@ -267,6 +273,8 @@ class Tracing:
                 def mkf(real=real, name=name):
                     def f(x):
                         if isinstance(x, Sym):
+                            if not FLOOR_AS_EVENT:
+                                return call(name, real, x)
                             v = real(float.__float__(x))
                             _ev('int', f'{name}({show(x.node)})', v)
                             return v
